@@ -89,16 +89,48 @@ def fold_cases(ctx):
                 ctx.corr_break("relative azimuth(%r, %r): model %r, implementation %r" % (a, b, m, g))
 
 
+_special = {}
+
+
+def special_times(base_ms):
+    """times (ms) at which the NOAA-14 nadir track crosses the antimeridian / comes closest to a pole, found on the
+    orbit itself (10 s grid over 3.5 h, refined to 0.5 s)"""
+    if base_ms in _special:
+        return _special[base_ms]
+    grid = base_ms + np.arange(0, 12600000, 10000)
+    lon, lat = orbit_positions(grid * 1000, [1023.5], 0.5)
+    lon, lat = lon[:, 0], lat[:, 0]
+    out = {"antimeridian": [], "pole": []}
+    for i in range(len(grid) - 1):
+        if abs(lon[i + 1] - lon[i]) > 180:
+            fine = grid[i] + np.arange(0, 10000, 500)
+            flon, _ = orbit_positions(fine * 1000, [1023.5], 0.5)
+            j = int(np.argmax(np.abs(np.diff(flon[:, 0])) > 180))
+            out["antimeridian"].append(int(fine[j]))
+        if 0 < i and abs(lat[i]) > abs(lat[i - 1]) and abs(lat[i]) >= abs(lat[i + 1]) and abs(lat[i]) > 80:
+            out["pole"].append(int(grid[i]))
+    _special[base_ms] = out
+    return out
+
+
 def pass_case(ctx, rng, k):
-    fmt = ["podGac", "klmGac", "podLac", "klmLac"][k % 4]
+    # the 48 combinations of format x coordinates x TLE x place on the orbit are enumerated, not drawn
+    import itertools
+    combos = list(itertools.product(["podGac", "klmGac", "podLac", "klmLac"], [True, False], ["ok", "stale"],
+                                    ["anywhere", "antimeridian", "pole"]))
+    fmt, interp, tle, where = combos[k % len(combos)]
     fam, res = FMT[fmt]["family"], FMT[fmt]["res"]
     num, den = timesgen.period(fmt)
     n = 10 if res == "lac" else rng.choice([12, 30])
-    interp = rng.random() < 0.5
-    tle = rng.choice(["ok", "ok", "stale"])
     tie_pos = 23.5 + 40.0 * np.arange(51) if res == "gac" else 24.0 + 40.0 * np.arange(51)
     # the orbit is NOAA-14's (element set of 2000-322); 'stale' moves the pass 30 days away from the element set
     start = ydm_to_ms(2000, 322, rng.randint(0, 86000000)) + (30 * 86400000 if tle == "stale" else 0)
+    if where != "anywhere":
+        # put the middle of the pass on the antimeridian crossing of the nadir track / on the highest latitude
+        base = ydm_to_ms(2000, 322, 0) + (30 * 86400000 if tle == "stale" else 0)
+        cands = special_times(base)[where]
+        if cands:
+            start = rng.choice(cands) - (n // 2) * num // den + rng.choice([0, num // den, -(num // den)])
     nums = list(range(1, n + 1))
     t_us = (start + timesgen.ideal_offsets(fmt, nums)) * 1000
     tlon, tlat = orbit_positions(t_us, tie_pos, num / den / 1000.0)
@@ -198,12 +230,12 @@ def pass_case(ctx, rng, k):
                                                                          float(np.nanmax(sz[:, nadir])), float(np.nanmin(sz[:, [0, -1]])),
                                                                          float(np.nanmax(sz[:, [0, -1]])), dev), payload,
                       cls="angles-satzen:%s" % tle)
-    ctx.case((fmt, start, interp, tle), nontrivial=True, branch="pass/%s/%s/%s" % (fmt, "interp" if interp else "ties", tle))
+    ctx.case((fmt, start, interp, tle), nontrivial=True, branch="pass/%s/%s/%s/%s" % (fmt, "interp" if interp else "ties", tle, where))
 
 
 def run(ctx):
     fold_cases(ctx)
-    for k in range(ctx.n(32, 200)):
+    for k in range(ctx.n(48, 240)):
         pass_case(ctx, ctx.rng, k)
     ctx.sample({"sun_max_dev_deg": ctx.extra.get("sun_max_dev_deg"), "sat_zenith_max_dev_deg": ctx.extra.get("sat_zenith_max_dev_deg")})
 
